@@ -12,7 +12,7 @@ TheMod == Modules[ModIdx]
 
 TypeNames == {TheMod.defs[i].n : i \in DOMAIN TheMod.defs}
 
-PlansEnc == {<<OpBuild(1), OpEncode(1, "DER"), OpEncode(1, "UPER"), OpEncode(1, "OER"), OpEncode(1, "CXER"), OpEncode(1, "BXER")>>}
+PlansEnc == {<<OpBuild(1), OpEncode(1, s)>> : s \in Syntaxes}
 PlansRT == {<<OpBuild(1), OpEncode(1, "DER"), OpEncode(1, s), OpDecode(2, s), OpCompare(1, 2), OpEncode(2, "DER")>> : s \in Syntaxes}
 \* transcoding chains: every ordered pair of syntaxes
 PlansChain == {<<OpBuild(1), OpEncode(1, "DER"), OpEncode(1, s1), OpDecode(2, s1), OpEncode(2, s2), OpDecode(3, s2),
